@@ -170,8 +170,22 @@ let op_lit (args : str list) : str list =
        | Some ((l, s), comps) -> [dec_of_n l; dec_of_n s; S.concat "." (List.map dec_of_n comps)])
   | _ -> ["bad-args"]
 
+(* declaration graph: each argument is one declaration "A n b" | "S n e1,e2" | "P n i1,i2" | "L n" *)
+let op_cycle (args : str list) : str list =
+  let ints s = if s = "" then [] else List.map (fun x -> n_of_int (int_of_string x)) (S.split_on_char ',' s) in
+  let decl a =
+    match S.split_on_char ' ' a with
+    | ["A"; n; b] -> DAlias (n_of_int (int_of_string n), n_of_int (int_of_string b))
+    | ["S"; n; es] -> DStruct (n_of_int (int_of_string n), ints es)
+    | ["S"; n] -> DStruct (n_of_int (int_of_string n), [])
+    | ["P"; n; is] -> DPou (n_of_int (int_of_string n), ints is)
+    | ["P"; n] -> DPou (n_of_int (int_of_string n), [])
+    | ["L"; n] -> DLeaf (n_of_int (int_of_string n))
+    | _ -> failwith "bad decl" in
+  [ if reports_cycle (List.map decl args) then "1" else "0" ]
+
 let ops : (str * (str list -> str list)) list ref =
-  ref [ ("lex", op_lex); ("semtok", op_semtok); ("decode", op_decode); ("lit", op_lit) ]
+  ref [ ("lex", op_lex); ("semtok", op_semtok); ("decode", op_decode); ("lit", op_lit); ("cycle", op_cycle) ]
 
 
 let () =
